@@ -509,6 +509,11 @@ example : parseXmlDecl (cps "<?xml version='1.0' encoding=\"Latin-1\"?><a/>") = 
 example : parseXmlDecl (cps "<?xml version=\"1.0\" standalone='no' ?>x") = some (none, cps "x") := by decide
 example : parseXmlDecl (cps "<?xml version=\"1.0\" encoding=\"a'?>") = none := by decide
 
+/-- the pattern of the code accepts more than XML 1.0 (tests): a version that is no VersionNum and an encoding that is
+no EncName are read by the pattern, not by the strict reader — the property is silent there, the oracle too -/
+example : declMatch (cps "<?xml version=\"x\" encoding=\"a b\"?>") = some (cps "a b") ∧
+    parseXmlDecl (cps "<?xml version=\"x\" encoding=\"a b\"?>") = none := by decide
+
 /-- the two former declaration findings at their witnesses, now the right way round (tests): a legal declaration that
 continues on the next line is found; an element attribute after a declaration without encoding is ignored; another
 processing instruction whose target starts with `xml` is not a declaration -/
@@ -565,6 +570,47 @@ theorem doc_layer_spec (L : Lib) (r : Option RespD) (text : Option Doc) (t : Opt
       getEncodingInfo (r.map RespD.head) (text.map Doc.asText)
         (metaRawOf L (match effDoc r text with | .ok d => d.asText | .error _ => [])) t :=
   getEncodingInfoD_eq L r text t
+
+/-- T20.1 on documents: the documented first-match table for a `str` or `bytes` document (or one read from the
+response), with the meta stage inside — `encoding_spec` carried over by `doc_layer_spec` -/
+theorem encoding_spec_doc (L : Lib) (r : Option RespD) (text : Option Doc) (t : Option Cps) (i : Info)
+    (h : getEncodingInfoD L r text t = .ok i) :
+    ∃ d, effDoc r text = .ok d ∧
+      i.encoding =
+        if truthy i.httpEncoding = true then i.httpEncoding else
+          match docClass (r.map RespD.head) d.asText with
+          | .appXml => i.xmlEncoding
+          | .html => if truthy i.metaEncoding = true then i.metaEncoding else some (cps "iso-8859-1")
+          | .textXml => some (cps "ascii")
+          | .text => some (cps "iso-8859-1")
+          | .css => some (cps "utf-8")
+          | .other => i.httpEncoding := by
+  rw [getEncodingInfoD_eq] at h
+  obtain ⟨txt, h1, hE⟩ := encoding_spec _ _ _ _ i h
+  cases text with
+  | some d =>
+    simp only [effText, Option.map_some, Except.ok.injEq] at h1; subst h1
+    exact ⟨d, rfl, hE⟩
+  | none =>
+    cases r with
+    | none => simp [effText] at h1
+    | some rr =>
+      obtain ⟨mt, cs, body⟩ := rr
+      refine ⟨body.getD (.text []), rfl, ?_⟩
+      have : txt = (body.getD (.text [])).asText := by
+        cases body <;> (simp [effText, RespD.head] at h1; rw [← h1]; rfl)
+      subst this
+      exact hE
+
+/-- T20.2 on documents -/
+theorem mismatch_iff_doc (L : Lib) (r : Option RespD) (text : Option Doc) (t : Option Cps) (i : Info)
+    (h : getEncodingInfoD L r text t = .ok i) :
+    i.mismatch = true ↔
+      (truthy i.httpEncoding = true ∧ truthy i.xmlEncoding = true ∧ i.httpEncoding ≠ i.xmlEncoding) ∨
+      (truthy i.httpEncoding = true ∧ truthy i.metaEncoding = true ∧ i.httpEncoding ≠ i.metaEncoding) ∨
+      (truthy i.xmlEncoding = true ∧ truthy i.metaEncoding = true ∧ i.xmlEncoding ≠ i.metaEncoding) := by
+  rw [getEncodingInfoD_eq] at h
+  exact mismatch_iff _ _ _ _ i h
 
 /-- T20.5 `text_or_bytes`: a `bytes` document and the `str` document with the same values (its latin-1 decoding)
 get the same `EncodingInfo` — every field, the exception included — for every response, every behaviour of the
